@@ -1,0 +1,22 @@
+//go:build verif
+
+package binary
+
+import (
+	"fmt"
+	"sync/atomic"
+)
+
+// VerifPoolHook, when set, receives one event after every Get from and before
+// every Put into the package's sync.Pools. seq is a global sequence number:
+// for one object, put-event < Put < Get < get-event, so the order of the
+// logged events for an object agrees with the real order without any clock.
+var VerifPoolHook func(seq uint64, kind, ev, obj string, clean bool)
+
+var verifPoolSeq uint64
+
+func verifPool(kind, ev string, obj interface{}, clean bool) {
+	if h := VerifPoolHook; h != nil {
+		h(atomic.AddUint64(&verifPoolSeq, 1), kind, ev, fmt.Sprintf("%p", obj), clean)
+	}
+}
